@@ -84,6 +84,10 @@ enum cc_stat cc_array_new_conf(CC_ArrayConf const * const conf, CC_Array **out)
     if (!conf->capacity || ex >= CC_MAX_ELEMENTS / conf->capacity)
         return CC_ERR_INVALID_CAPACITY;
 
+    /* The buffer size in bytes must not wrap around either. */
+    if (conf->capacity > CC_MAX_ELEMENTS / sizeof(void*))
+        return CC_ERR_INVALID_CAPACITY;
+
     CC_Array *ar = conf->mem_calloc(1, sizeof(CC_Array));
 
     if (!ar)
